@@ -58,3 +58,16 @@ register(
     "the reverse index, no other writer exists. The equivalence itself for every (definition, usage) pair is not decided.",
     [r3.r3c_reverse_index],
 )
+
+from . import r3d
+
+register(
+    "C07",
+    "Structural necessary conditions for caches being invisible: (R3d-hit) every stamp stored in a cache entry is "
+    "compared on the hit path; (R3d-i) every mutation of the definition maps is followed by a version increment; "
+    "(R3d-ii) every map read by the computation behind a version-stamped cache is itself stamped/transparent or has "
+    "all writes followed by an increment; (R3d-iii) no memoised result depends on a &mut context parameter outside the "
+    "key; (R3d-iv) no query is gated solely by membership in an evictable cache. Equality of warm and cold answers "
+    "for every interleaving is not decided.",
+    [r3d.r3d_hit, r3d.r3d_bump, r3d.r3d_readset, r3d.r3d_memo_context, r3d.r3d_membership_gate],
+)
